@@ -45,8 +45,8 @@ ErrCap(c) == IF c = "split" THEN 0 ELSE 1
 
 \* the encoder and dry-run spreaders are a single goroutine (which also closes its error channel)
 SinkWorkers == IF Sink \in {"enc", "dry"} THEN 1 ELSE W
-\* the encoders use the no-op grower, which is a single goroutine as well
-NW(s) == IF s = "sink" THEN SinkWorkers ELSE IF s = "grow" /\ Sink = "enc" THEN 1 ELSE W
+\* (until fix 45df1cf an encoding option selected a pass-through grower with one goroutine; now every sink has the real grower)
+NW(s) == IF s = "sink" THEN SinkWorkers ELSE W
 \* sinks that keep looping after reporting an error (no return after errc <- err)
 SinkContinues == Sink \in {"enc", "verify", "walk"}
 
